@@ -26,7 +26,7 @@ def run(chk):
         "error exits close and the continue releases the intermediate response."
     )
     chk.not_decided = "what a multi-hop chain finally sends (value level); proxy credential handling of environment proxies."
-    chk.explanation += " Also decided: every local derived from the hop's URL is recomputed in each iteration before any use."
+    chk.explanation += " Also decided: every local derived from the hop's URL is recomputed in each iteration before any use. After the defect hunt: the rewrite branch resets chunked and closes the dropped payload; a 30x without Location is not counted as a hop; the Location netloc is validated inside the guard."
     rq = repo.func(CLIENT, "ClientSession._request")
     g = cfg_of(rq.node)
     red = [i for i in ast.walk(rq.node) if isinstance(i, ast.If) and "resp.status in (301, 302, 303, 307, 308)" in norm.raw(i.test)]
